@@ -310,7 +310,7 @@ fn main() {
                         if n == 0 { "n0" } else if n == 1 { "n1" } else if q <= 0.5 { "asc" } else { "desc" });
                     let desc = format!("fn=vquantile ty={} be={} q={:?} method={} xs={:?}", ty.name(), be.name(), q, m, s.xs);
                     em.case("custom:quant", &tags, &desc,
-                        || format!("(run_quant_{} {} {} {})", ty.sfx(), coq_f64(q), m, coq_series(s, ty)),
+                        || format!("(run_quantx_{} {} {} {})", ty.sfx(), coq_f64(q), m, coq_series(s, ty)),
                         || on_view!(ty, be, s, v, _raw => quant(&v, q, m)));
                 }
             }
